@@ -10,7 +10,7 @@ import repgen
 
 LEVEL = "exploration"
 RULE = ("Hypothesis cases: an acyclic hierarchy (2-4 cells, shared sub-cells, depth <= 3) with polygons, 1-2 element flexpaths with "
-        "offsets (scale_width both ways), robust paths, labels, every repetition kind on elements and references (counts <= 3), "
+        "offsets (scale_width both ways, circular bends on half of the outline paths), robust paths, labels, every repetition kind on elements and references (counts <= 3), "
         "references with rotation x magnification x reflection, followed by a history of operations: get_polygons / "
         "get_flexpaths / get_robustpaths / get_labels with (apply_repetitions, include_paths, depth in {0,1,2,-1}, filter "
         "on/off with present or absent tags), flatten(apply_repetitions), deep Cell::copy_from + mutation of the copy. Oracle: "
@@ -40,6 +40,13 @@ def case_strategy(draw):
             r = draw(lg.reference(1, size=400, props=lambda: st.just([]), allow_name=False, rep_st=small_rep, small_counts=True))
             r["kind"], r["target"] = "cell", i + 1
             lib["cells"][i]["refs"].append(r)
+    # circular bends on some outline flexpaths (segments are 150..400 long and turn by at most 1.5 rad: a radius of 50 fits, and
+    # stays above offset + half width = 30); the radius follows the magnification whatever scale_width says
+    for c in lib["cells"]:
+        for p in c["paths"]:
+            if p["kind"] == "fp" and not p["simple"] and draw(st.booleans()):
+                for e in p["els"]:
+                    e["bend"] = 50.0
     # a magnification of 1e-3 shrinks path segments below the path tolerance (degenerate paths, outside the property's domain)
     for c in lib["cells"]:
         for r in c["refs"]:
@@ -122,7 +129,8 @@ def constructed_fp_lines(pid, p, A, g):
     els = " ".join("%s %s %d %d" % (fl(e["w"] * (m if p["scale_width"] else 1.0) * g), fl(e["off"] * m * s * g), e["tag"][0], e["tag"][1]) for e in p["els"])
     lines = ["fp new %s %s %s %d %s 0 %d %s" % (pid, fl(sp[0][0] * g), fl(sp[0][1] * g), len(p["els"]), fl(p["tol"] * g), 1 if p["scale_width"] else 0, els)]
     for i, e in enumerate(p["els"]):
-        lines.append("fp elem %s %d %d %d %s %s 0 0" % (pid, i, e.get("join", 0), lg.END_CODE[e["end"]], fl(e["ext"][0] * m * g), fl(e["ext"][1] * m * g)))
+        lines.append("fp elem %s %d %d %d %s %s %s" % (pid, i, e.get("join", 0), lg.END_CODE[e["end"]], fl(e["ext"][0] * m * g), fl(e["ext"][1] * m * g),
+                                                      ("1 " + fl(e["bend"] * m * g)) if e.get("bend") else "0 0"))
     lines.append("fp seg %s 0 %d %s - -" % (pid, len(sp) - 1, " ".join(fl(c * g) for q in sp[1:] for c in q)))
     return lines
 
@@ -344,7 +352,7 @@ def check(ctx, case):
                 for off in expand_dump_rep(f["rep"], g):
                     got.append({"spine": [(x / g + off[0], y / g + off[1]) for x, y in f["spine"]], "scale_width": f["scale_width"], "simple": f["simple"],
                                 "els": [{"tag": el["tag"], "hw": [h[0] / g for h in el["hwo"]], "off": [h[1] / g for h in el["hwo"]], "end": el["end"],
-                                         "ext": [el["ext"][0] / g, el["ext"][1] / g]} for el in f["elements"]]})
+                                         "ext": [el["ext"][0] / g, el["ext"][1] / g], "bend": (el["bend_radius"] / g) if el["bend"] else 0.0} for el in f["elements"]]})
 
             def feq(a, b):
                 p, A = a["p"], a["A"]
@@ -360,6 +368,8 @@ def check(ctx, case):
                     if eb["tag"] != ea["tag"] or eb["end"] != lg.END_CODE[ea["end"]]:
                         return False
                     if any(abs(h - hw) > 1e-9 * max(1, abs(hw)) for h in eb["hw"]) or any(abs(x - of) > 1e-9 * max(1, abs(of)) for x in eb["off"]):
+                        return False
+                    if abs(eb["bend"] - ea.get("bend", 0.0) * m) > 1e-9 * max(1, ea.get("bend", 0.0) * m):
                         return False
                     if ea["end"] == "extended" and (abs(eb["ext"][0] - ea["ext"][0] * m) > 1e-9 * max(1, abs(ea["ext"][0] * m)) or
                                                     abs(eb["ext"][1] - ea["ext"][1] * m) > 1e-9 * max(1, abs(ea["ext"][1] * m))):
